@@ -58,6 +58,27 @@ def launch_fail_family(rng, count):
     return out
 
 
+def skip_gate_family():
+    """a failing task whose dependent must be SKIPPED while other tasks are in flight and others are ready: the launch gate
+    has to be re-evaluated after a skip (a sequential task must not start next to a running parallel one, and vice versa).
+    Exhaustive over the parallelizable flags of the four leaves, two listing orders, jobs 2-3 and three completion orders."""
+    out = []
+    for flags in itertools.product((False, True), repeat=4):
+        for order in ([1, 2, 3, 4], [4, 3, 2, 1], [2, 3, 4, 1]):
+            for jobs in (2, 3):
+                for picks in ([1, 0, 0, 0, 0], [0, 0, 0, 0, 0], [1, 1, 0, 0, 0]):
+                    for chain in (False, True):
+                        tasks = [Task(2, list(order) + ([5] if chain else []), "group", False),
+                                 Task(2, [], "command", flags[0]),            # long
+                                 Task(2, [], "experiment", flags[1]),         # bad (fails)
+                                 Task(2, [2], "command", flags[2]),           # dependent of bad: skipped
+                                 Task(2, [], "command", flags[3])]            # ready, independent
+                        if chain:
+                            tasks.append(Task(2, [3], "command", flags[2]))   # second-level dependent: skipped too
+                        out.append(Case(tasks, jobs=jobs, rcs=[0, 0, 3, 0, 0, 0][:len(tasks)], picks=list(picks)))
+    return out
+
+
 def gen_for(prop, chk, tier):
     rng = chk.rng
     n = {"quick": 500, "thorough": 6000}[tier]
@@ -70,6 +91,8 @@ def gen_for(prop, chk, tier):
         cases += [rand_case(rng, nmax=8, defects=0.7, fail=0.0, stop=0.0) for _ in range(n)]
     elif prop == "C03":
         cases += launch_fail_family(rng, n // 10)
+        sg = skip_gate_family()
+        cases += sg if tier == "thorough" else sg[::4]
         cases += [rand_case(rng, fail=0.85, stop=0.4) for _ in range(n)]
     elif prop == "C04":
         cs = [rand_case(rng, fail=0.2) for _ in range(n)]
@@ -80,11 +103,15 @@ def gen_for(prop, chk, tier):
                     t.par = rng.random() < 0.7
         cases += cs
         cases += launch_fail_family(rng, n // 4)
+        cases += skip_gate_family()
     elif prop == "C09":
         cases += launch_fail_family(rng, n // 10)
         cases += [rand_case(rng) for _ in range(n)]
     else:
         cases += [rand_case(rng) for _ in range(n)]
+        # projects with a defect (cycle, undefined / malformed task, the same task listed twice under two spellings):
+        # nothing may be planned or executed for them
+        cases += [rand_case(rng, nmax=7, defects=1.0, fail=0.0) for _ in range(n // 8)]
     return cases
 
 
@@ -135,6 +162,84 @@ def real_failures(chk, rounds):
         chk.count("real", how)
 
 
+def real_slots(chk, rounds):
+    """real `cond run` processes over a project that declares its tasks in every available form (run_command,
+    run_experiment, the instances of run_experiment_group), with mixed `parallelizable` flags: each task logs its start
+    (with the COND_SLOT it sees) and its end; the log is replayed against every clause of C04 using the DECLARED flags."""
+    import os
+    import implrun
+    from implrun import strip_ansi
+
+    rng = chk.rng
+    for r in range(rounds):
+        root = implrun.make_project({"COND": ""})
+        log = os.path.join(root, "events.log")
+        script = 'echo S $COND_NAME ${COND_SLOT-unset} >> %s; sleep 0.%d; echo E $COND_NAME >> %s' % (log, rng.randint(1, 3), log)
+        flags = {}
+        inst = []
+        names = ["g-%d" % i for i in range(4)]
+        pattern = [True, False, True, False] if r % 2 == 0 else [rng.random() < 0.5 for _ in range(4)]
+        if r % 3 == 2:
+            pattern = [False, True, False, True]
+        for nme, fl in zip(names, pattern):
+            flags[nme] = fl
+            inst.append('ExperimentInstance(name="%s"%s)' % (nme, ", parallelizable=True" if fl else ("" if rng.random() < 0.5 else ", parallelizable=False")))
+        lines = ['run_experiment_group(name="g", run="%s", experiments=[%s])' % (script, ", ".join(inst))]
+        for nme, form, fl in (("c-p", "run_command", True), ("c-s", "run_command", False), ("e-p", "run_experiment", True), ("e-s", "run_experiment", False)):
+            flags[nme] = fl
+            lines.append('%s(name="%s", run="%s"%s)' % (form, nme, script, ", parallelizable=True" if fl else ""))
+        order = [":g", ":c-p", ":c-s", ":e-p", ":e-s"]
+        rng.shuffle(order)
+        lines.append('combine(name="all", deps=[%s])' % ", ".join('"%s"' % d for d in order))
+        open(os.path.join(root, "COND"), "w").write("\n".join(lines) + "\n")
+        jobs = [3, 1, 2, None][r % 4]
+        argv = ["run", "//:all"] + (["-j", str(jobs)] if jobs else [])
+        res = implrun.run_cond(argv, root, timeout=120)
+        chk.coverage["evaluations"] += 1
+        chk.count("real-slots", "jobs=%s" % jobs)
+        J = jobs or 1
+        problems = []
+        text = strip_ansi(res.out + res.err)
+        if res.code != 0:
+            problems.append("harness: cond run exited %s: %s" % (res.code, text[-300:]))
+        running = {}
+        seen = set()
+        try:
+            evs = [l.split() for l in open(log).read().splitlines()]
+        except OSError:
+            evs = []
+        for ev in evs:
+            if ev[0] == "S":
+                nme, slot = ev[1], ev[2]
+                seen.add(nme)
+                if len(running) + 1 > J:
+                    problems.append("%d tasks running at once under --jobs %d" % (len(running) + 1, J))
+                if not flags.get(nme, False) and running:
+                    problems.append("non-parallelizable task %s started while %s were running" % (nme, sorted(running)))
+                for other in running:
+                    if not flags.get(other, False):
+                        problems.append("task %s started while the non-parallelizable task %s was running" % (nme, other))
+                want_slot = flags.get(nme, False) and J > 1
+                if want_slot:
+                    if not (slot.isdigit() and 0 <= int(slot) < J):
+                        problems.append("parallelizable task %s under --jobs %d saw COND_SLOT=%s" % (nme, J, slot))
+                    elif slot in running.values():
+                        problems.append("COND_SLOT=%s handed to %s while another running task holds it" % (slot, nme))
+                elif slot != "unset":
+                    problems.append("task %s (declared parallelizable=%s, jobs=%d) saw COND_SLOT=%s, must be unset" % (nme, flags.get(nme), J, slot))
+                running[nme] = slot
+            else:
+                running.pop(ev[1], None)
+        if res.code == 0 and seen != set(flags):
+            problems.append("harness: tasks that ran %s != declared %s" % (sorted(seen), sorted(flags)))
+        for msg in problems[:3]:
+            chk.violation("impl-violation", "real processes, tasks declared in every form, %s: %s" % (" ".join(argv), msg),
+                          {"input": {"cond": "\n".join(lines), "argv": argv}, "impl_observation": {"events": evs, "exit": res.code}, "oracle_verdict": msg},
+                          match_key={"real-slots": msg.split(" ")[0]}, size=9)
+        if not problems:
+            chk.coverage["traces_validated_against_impl"] += 1
+
+
 def run_prop(prop, tier, seed, replay=None, extra_oracles=()):
     chk = Check(prop, tier, seed)
     chk.build_proofs(MODEL_TARGETS)
@@ -161,6 +266,8 @@ def run_prop(prop, tier, seed, replay=None, extra_oracles=()):
     run_cases(chk, cases, oracles)
     if prop == "C03":
         real_failures(chk, 4 if tier == "quick" else 24)
+    if prop == "C04":
+        real_slots(chk, 4 if tier == "quick" else 24)
     if prop == "C09":
         from reaper_util import reaper_scenarios
 
